@@ -151,21 +151,24 @@ where
     T: Logos<'s, Source = str, Extras = ()> + Debug,
     T::Error: ErrTag,
 {
-    if let Some(cuts) = mode.strip_prefix('f') {
+    if let Some((reslice, cuts)) = mode.strip_prefix('f').map(|c| (false, c)).or(mode.strip_prefix('r').map(|c| (true, c))) {
         // chunked feeding (C07): partial lexers over growing prefixes, each resumed where the one before said `None`,
-        // then an ordinary lexer over everything; printed like mode "n"
+        // then an ordinary lexer over everything; printed like mode "n".  Mode "f": a lexer over `src[..k]` is moved to the
+        // position with `bump` (Chunked.feed); mode "r": a lexer over the remaining slice `src[q..k]`, spans moved by `q`
+        // (Reslice.feedR, what examples/json_reader.rs does)
         let mut out = String::new();
         let mut q = 0usize;
         let ks: Vec<usize> = cuts.split(',').filter_map(|k| k.parse().ok()).collect();
         for (j, k) in ks.iter().map(|&k| Some(k)).chain([None]).enumerate() {
             let _ = j;
+            let base = if reslice { q } else { 0 };
             let buf = match k {
-                Some(k) if k <= src.len() && k >= q && src.is_char_boundary(k) => &src[..k],
+                Some(k) if k <= src.len() && k >= q && src.is_char_boundary(k) => &src[base..k],
                 Some(_) => continue,
-                None => src,
+                None => &src[base..],
             };
             let mut lex: Lexer<'s, T> = if k.is_some() { Lexer::new_partial(buf) } else { Lexer::new(buf) };
-            lex.bump(q);
+            lex.bump(q - base);
             let mut n = 0usize;
             loop {
                 n += 1;
@@ -175,6 +178,7 @@ where
                 }
                 let item = lex.next();
                 let sp = lex.span();
+                let sp = (sp.start + base)..(sp.end + base);
                 match item {
                     Some(Ok(t)) => write!(out, "{}:{}-{} ", vname(&t), sp.start, sp.end).unwrap(),
                     Some(Err(e)) => write!(out, "!{}:{}-{} ", e.tag(), sp.start, sp.end).unwrap(),
@@ -241,21 +245,24 @@ where
     T: Logos<'s, Source = [u8], Extras = ()> + Debug,
     T::Error: ErrTag,
 {
-    if let Some(cuts) = mode.strip_prefix('f') {
+    if let Some((reslice, cuts)) = mode.strip_prefix('f').map(|c| (false, c)).or(mode.strip_prefix('r').map(|c| (true, c))) {
         // chunked feeding (C07): partial lexers over growing prefixes, each resumed where the one before said `None`,
-        // then an ordinary lexer over everything; printed like mode "n"
+        // then an ordinary lexer over everything; printed like mode "n".  Mode "f": a lexer over `src[..k]` is moved to the
+        // position with `bump` (Chunked.feed); mode "r": a lexer over the remaining slice `src[q..k]`, spans moved by `q`
+        // (Reslice.feedR, what examples/json_reader.rs does)
         let mut out = String::new();
         let mut q = 0usize;
         let ks: Vec<usize> = cuts.split(',').filter_map(|k| k.parse().ok()).collect();
         for (j, k) in ks.iter().map(|&k| Some(k)).chain([None]).enumerate() {
             let _ = j;
+            let base = if reslice { q } else { 0 };
             let buf = match k {
-                Some(k) if k <= src.len() && k >= q => &src[..k],
+                Some(k) if k <= src.len() && k >= q => &src[base..k],
                 Some(_) => continue,
-                None => src,
+                None => &src[base..],
             };
             let mut lex: Lexer<'s, T> = if k.is_some() { Lexer::new_partial(buf) } else { Lexer::new(buf) };
-            lex.bump(q);
+            lex.bump(q - base);
             let mut n = 0usize;
             loop {
                 n += 1;
@@ -265,6 +272,7 @@ where
                 }
                 let item = lex.next();
                 let sp = lex.span();
+                let sp = (sp.start + base)..(sp.end + base);
                 match item {
                     Some(Ok(t)) => write!(out, "{}:{}-{} ", vname(&t), sp.start, sp.end).unwrap(),
                     Some(Err(e)) => write!(out, "!{}:{}-{} ", e.tag(), sp.start, sp.end).unwrap(),
